@@ -118,7 +118,28 @@ def run(p: Program, rep: Report, tier: str) -> None:
                     accepted = "seg"
                 elif a == prefix:
                     accepted = accepted or "bare"
-        if accepted in ("eq", "seg"):
+        if accepted == "bare":
+            # startswith(prefix) AND a test of the ONE character that follows the prefix: '' (path == prefix) or '/' (a new segment)
+            def _next_char(t):
+                if not (t[0] == "sub" and t[1] == ("param", "path") and t[2][0] == "slice"):
+                    return False
+                lo, hi = t[2][1], t[2][2]
+                ln = ("call", ("builtin", "len"), (prefix,), ())
+                lo_ok = lo[0] == "call" and lo[1] == ("builtin", "len") and lo[2] == (prefix,)
+                hi_ok = hi[0] == "binop" and hi[1] == "Add" and {hi[2][:3] if hi[2][0] == "call" else hi[2], hi[3][:3] if hi[3][0] == "call" else hi[3]} == {ln[:3], ("const", 1)}
+                return lo_ok and hi_ok
+            for f, t in pa.facts:
+                if t and f[0] == "cmp" and f[1] == "Eq" and _next_char(f[2]) and f[3] in (("const", ""), ("const", "/")):
+                    accepted = "eq" if f[3] == ("const", "") else "seg"
+                elif t and f[0] == "cmp" and f[1] == "In" and _next_char(f[2]) and f[3][0] in ("tuple", "set", "list") and set(f[3][1]) == {("const", ""), ("const", "/")}:
+                    accepted = "eq+seg"
+                elif t and f[0] == "cmp" and f[1] == "In" and _next_char(f[2]) and f[3] in (("const", "/"),):
+                    accepted = "eq+seg"  # '' in '/' and '/' in '/'
+        if accepted == "eq+seg":
+            forms.update(("eq", "seg"))
+            rep.ok("R9.1", "accepting path guarded by startswith(prefix) and the character that follows the prefix being '' (path == prefix)")
+            rep.ok("R9.1", "accepting path guarded by startswith(prefix) and the character that follows the prefix being '/' (a new segment)")
+        elif accepted in ("eq", "seg"):
             forms.add(accepted)
             rep.ok("R9.1", f"accepting path guarded by segment-aware test ({accepted}): " + "; ".join(pa.fact_text()))
         elif accepted == "bare":
